@@ -196,6 +196,9 @@ class ExcelCompiler:
                 return '=' + a_cell.formula.python_code
             elif isinstance(a_cell.value, np.float64):
                 return float(a_cell.value)
+            elif isinstance(a_cell.value, str) and a_cell.value.startswith('='):
+                # text which would be read back as code, is saved as the code for the text
+                return '=' + repr(a_cell.value)
             else:
                 return a_cell.value
 
